@@ -9,6 +9,9 @@ CLAIMED = {
  "C03": ("Coq model of filterWithLContext (state machine, branch for branch, with the running-number arithmetic) and a declarative grep specification; proved equal on the finite domain |file|<=8, before/after<=3, max<=4 (kernel-evaluated sweep lifted by forallb_forall), no-op pattern theorems; full unbounded statement kept visible as C03_full. Tied to the code through the reader API and the real dgrep CLI with RE2 verdicts as oracle.",
          "partial: unbounded induction for C03_full not yet proved; RE2 is an oracle",
          "Coq proof (finite sweep lifted by forallb_forall; structural lemmas) + differential correspondence check"),
+ "C12": ("Coq theorem C12_roundtrip: for every pattern, flag, context values in Z, output modes, blank-free file path and every iteration order of the option map, the server's decoding (Write -> handleCommand -> option parsing -> dispatch -> regex.Deserialize) of the bytes the client sends yields exactly the requested read command; base64/strconv enter as hypotheses. Model tied to the code by running the real client constructors + SendMessage and the real ServerHandler.Write on hostile patterns and option values, including dmap's option-less first command.",
+         "encoding/base64, strconv, regexp.Compile, mapr.NewQuery are oracles (hypotheses in the theorem, per-case tables in the correspondence check)",
+         "Coq proof (split/join algebra over bytes, induction over option lists) + differential correspondence check"),
  "C18": ("Coq theorems C18_set/C18_shuffle_perm/C18_dedup/C18_comma/C18_file over an executable model of source->filter->dedup->shuffle for all entry lists, filters and legal index sequences; model tied to the code by a differential correspondence check (Go harness vs vm_compute) on generated lists/files/plug-in sources.",
          "regexp, math/rand and bufio.Scanner are oracles; outputs compared as sorted lists",
          "Coq proof (induction, Permutation/NoDup) + differential correspondence check"),
